@@ -446,7 +446,7 @@ func syncClientFacts(repo string) (string, string, error) {
 		}
 	}
 	sort.Strings(files)
-	checkRedirectAssignments := 0
+	checkRedirectAssignments, httpClientAssignments := 0, 0
 	var setFn, cloneFn, newFn *ast.FuncDecl
 	for _, n := range files {
 		f, err := parser.ParseFile(fset, filepath.Join(repo, n), nil, 0)
@@ -462,6 +462,9 @@ func syncClientFacts(repo string) (string, string, error) {
 				for _, l := range s.Lhs {
 					if se, ok := l.(*ast.SelectorExpr); ok && se.Sel.Name == "CheckRedirect" {
 						checkRedirectAssignments++
+					}
+					if se, ok := l.(*ast.SelectorExpr); ok && se.Sel.Name == "httpClient" {
+						httpClientAssignments++
 					}
 				}
 			case *ast.KeyValueExpr:
@@ -620,6 +623,7 @@ func syncClientFacts(repo string) (string, string, error) {
 	out := "(* GENERATED by harness/c11 gosync from /repo/*.go (package req) - do not edit.\n" +
 		"   The shape of Client.SetRedirectPolicy, Client.Clone and C() that Model/RedirectClient.v rests on. *)\n" +
 		fmt.Sprintf("(* assignments to a CheckRedirect field anywhere in package req *)\nDefinition checkredirect_assignments : nat := %d.\n", checkRedirectAssignments) +
+		fmt.Sprintf("(* assignments to a client's httpClient field (Clone's `cc.httpClient = &client`): nothing else replaces the http.Client that holds CheckRedirect *)\nDefinition httpclient_field_assignments : nat := %d.\n", httpClientAssignments) +
 		"(* SetRedirectPolicy starts with `if len(policies) == 0 { return c }` *)\nDefinition set_policy_empty_is_noop : bool := " + b(emptyNoop) + ".\n" +
 		"(* it assigns c.httpClient.CheckRedirect a function literal that ranges over ITS OWN ARGUMENT *)\nDefinition set_policy_installs_closure_over_argument : bool := " + b(closureOverArg) + ".\n" +
 		"(* before that it replaces its argument by a private copy: `policies = append([]RedirectPolicy(nil), policies...)` *)\nDefinition set_policy_copies_argument : bool := " + b(copiesArg) + ".\n" +
